@@ -29,7 +29,7 @@ func c16cfgB() map[string]string {
 	return map[string]string{
 		"appender.rb.type": "VRec", "appender.rbh.type": "VRec",
 		"logger.lb.type": "AsyncLogger", "logger.lb.tags": "c16tag", "logger.lb.appenderRef.ref": "rb", "logger.lb.bufferFullPolicy": "Block", "logger.lb.bufferSize": "100",
-		"logger.h1.type": "AsyncLogger", "logger.h1.tags": "c16unused_a", "logger.h1.appenderRef.ref": "rbh", "logger.h1.bufferFullPolicy": "Block",
+		"logger.h1.type": "AsyncLogger", "logger.h1.tags": "c16unused_a", "logger.h1.appenderRef.ref": "rbh", "logger.h1.bufferFullPolicy": "Block", "logger.h1.bufferSize": "100",
 		"logger.h2.type": "Logger", "logger.h2.tags": "c16unused_b", "logger.h2.appenderRef.ref": "rbh",
 		"enableCaller": "false", "bufferCap": "2KB",
 	}
@@ -383,8 +383,11 @@ func init() {
 		Assumptions: []string{"the state after a late Refresh failure and before Destroy ('limbo') has no stated routing: only absence of panics/blocks is judged there", "a blocked call is detected by the worker's watchdog + goroutine dump (process-level), not by a deadline verdict"},
 		Run: func(d *D) {
 			var specs []Spec
-			for i := 0; i < 16; i++ {
-				s := d.NewSpec("enum", fmt.Sprintf("enum-%d", i), i, 16)
+			// late-failing Refreshes leave started loggers behind (outside every property): the enumeration is cut into
+			// many short-lived workers so that this cannot exhaust a worker's memory
+			ne := int(d.Pick(16, 128))
+			for i := 0; i < ne; i++ {
+				s := d.NewSpec("enum", fmt.Sprintf("enum-%d", i), i, ne)
 				s.N = d.Pick(5, 6)
 				s.TimeoutS = int(d.Pick(300, 1800))
 				specs = append(specs, s)
